@@ -31,5 +31,10 @@ CLAIMED = {
    text="Theorems for all slice lengths and element patterns and every width: bytes_to_slice . slice_to_bytes = id on in-range elements; slice_to_bytes . bytes_to_slice = the longest whole-element prefix (= id when the length is a multiple of the width); explicit little-endian byte order; length facts; which code path runs (the inverted endianness probe selects the byte-wise fallbacks on little-endian hosts); ties to the iterator's and builders' own byte loops incl. the float32 signalling-NaN deviation. Model compared with all 9 public helper pairs on lengths 0..33, boundary and NaN patterns.",
    note=COMMON_NOTE + "The unsafe fast path (dead code on this host) is modelled only as 'big-endian host output'; unexported Float16/UUID helpers are recorded but outside the property. Two open known findings (float32 signalling NaNs in the iterator and array-builder paths).",
    technique="Coq proof by induction over element lists using the LE library + differential run"),
+
+ "C21": dict(
+   text="Theorems for all struct descriptions: the two snake-case regexes equal two one-pass underscore insertions plus lower-casing; field extraction with nested re-sorting equals one stable sort of the declaration-order flattening; marshaling emits exactly the kept fields, each once, in tag order with declaration order among equal orders, under the configured/tagged name; emitted keys find their fields again (case/underscore-insensitive lookup, exact lookup); an unknown key with an edge-free value is skipped without disturbing the other fields. The full property is refuted on the faithful model by three named witnesses (embedded non-struct / pointer-to-struct fields, unknown key with an edge value, non-string keys), which are open known findings; the partial theorem excludes exactly these.",
+   note=COMMON_NOTE + "reflect.StructTag.Get and the builders/iterators of the field types are outside the model (values are opaque tokens); Go's unicode.ToLower enters through the hypothesis lower_idempotent, checked against the real table on every run; Go map iteration order is abstracted as a candidate set.",
+   technique="Coq proof (induction over field lists, sorting lemmas, scanner equivalence) + differential run + oracle over a zoo of struct types"),
 }
 NOT_CLAIMED = {}
